@@ -534,6 +534,13 @@ func TestC17(t *testing.T) {
 		for _, k := range signers {
 			steps = append(steps, chainkit.Step{Vote: &chainkit.VoteSpec{Key: k, Source: A, Target: C}})
 		}
+		// in half of the cases the node is restarted between the skip-link votes and the votes that justify
+		// A: the tree rebuilt from the store must give C its own parent epoch's validators, too
+		restartAt := map[int]bool{}
+		if c.Index%2 == 1 {
+			restartAt[len(steps)-1] = true
+			c.Count("cascades_with_restart_before_justification", 1)
+		}
 		for _, k := range tr.ValidatorsOf(A) { // the federation justifies A
 			steps = append(steps, chainkit.Step{Vote: &chainkit.VoteSpec{Key: k, Source: tr.Root, Target: A}})
 		}
@@ -545,8 +552,8 @@ func TestC17(t *testing.T) {
 		defer func() { rn.nd.Destroy() }()
 		jc := &justCheck{net: net, tr: tr}
 		jc.node = func() *chainkit.Node { return rn.nd }
-		rn.run(steps, runOpt{}, func(si int, s chainkit.Step, err error, ob *obs, restarted bool) bool {
-			ctx := map[string]interface{}{"k1": k1, "k2": k2, "signers_A->C": sN, "step": si, "event": s.String(), "trail": rn.trail}
+		rn.run(steps, runOpt{reopenAfter: restartAt}, func(si int, s chainkit.Step, err error, ob *obs, restarted bool) bool {
+			ctx := map[string]interface{}{"k1": k1, "k2": k2, "signers_A->C": sN, "step": si, "event": s.String(), "after_restart": restarted, "trail": rn.trail}
 			if !jc.check(c, ob, ctx) {
 				return false
 			}
@@ -569,6 +576,7 @@ func TestC17(t *testing.T) {
 	})
 	r.Floor("cascades_checked", 30)
 	r.Floor("cascades_between_the_two_thresholds", 5)
+	r.Floor("cascades_with_restart_before_justification", 10)
 	r.Floor("voted_trees_with_changing_validator_count", 8)
 	r.Floor("justifications_checked", 30)
 	r.Floor("finalizations_checked", 10)
